@@ -130,6 +130,26 @@ def run(ctx):
                 pa = pr.operand(a)
                 if re.search(r"(div_euclid|div_floor)\(param:from,|Mul\(Div\(param:from,[^()]*(\([^()]*\))*[^()]*\),|BitAnd\(param:from,Not\(", pa) and not re.search(r"div_ceil\(param:from|next_multiple_of\(param:from", pa):
                     res.fail(Finding("R-ZERO", "R-ZERO/%s/range-end-rounded-down" % f.path, "%s rounds the old length DOWN to its unit for the end of the range to zero (%s): that end is never beyond the old length, so the rest of the sector that holds the old end is never cleared" % (f.path.split("::")[-1], pa[:110]), f, z.term["span"]))
+        # the end of the range is the new length itself, or the new length capped at the sector boundary above `from`
+        # (what lies beyond is in freshly initialised sectors).  A cap computed from anything else - the chain's
+        # length, another stream's length, an extra parameter - leaves part of the gained range as it was.
+        for (x, y) in ranges:
+            m = re.match(r"^(?:Ord::|<\w+ as Ord>::|std::cmp::|cmp::)?min\((.*)\)$", x)
+            if re.match(r"^param:\w+$", x):
+                continue
+            if not m:
+                continue
+            from prov import _split_top
+            ps = _split_top(m.group(1))
+            if len(ps) != 2:
+                continue
+            cap = ps[1] if re.match(r"^param:\w+$", ps[0]) else (ps[0] if re.match(r"^param:\w+$", ps[1]) else None)
+            if cap is None:
+                continue
+            foreign = [t_ for t_ in re.findall(r"param:\w+(?:\.\w+)*", cap) if t_ != y and not t_.startswith("param:minialloc")]
+            calls = {c_.split("::")[-1] for c_ in re.findall(r"([A-Za-z_][\w:<> ]*)\(", cap)} - {"Mul", "Add", "Sub", "Div", "cast", "saturating_mul", "saturating_add", "checked_mul", "div_ceil", "next_multiple_of", "sector_len", "version", "ok", "BitAnd", "BitOr", "Not", "mini_sector_len", "wrapping_mul"}
+            if foreign or calls:
+                res.fail(Finding("R-ZERO", "R-ZERO/%s/range-end-capped" % f.path, "%s stops the zero fill at min(new length, %s): a cap that depends on %s (and not only on `from` and the sector size) leaves part of the gained range with its old contents" % (f.path.split("::")[-1], cap[:100], ", ".join(sorted(set(foreign) | calls))[:80]), f, zs[0].term["span"]))
         # the count is the whole range end - from: a constant taken off it (or put on it) is an off-by-N
         for z in zs:
             for a in z.term["args"]:
